@@ -64,6 +64,11 @@ def gen_dir(rng, scratch: str):
         elif r < 0.35:
             t.file(b"d/.cap/" + n.encode("utf-8", "surrogateescape"), "Abstract=Abstract from the cap file %d\n" % k)
             it["dir_abstract"] = ["Abstract from the cap file %d" % k]
+        elif r < 0.5 and it["kind"] == "file":
+            # listed under another item type: the +INFO line follows, the +VIEWS block still describes the file
+            ty = rng.choice("19gh")
+            names_blocks.append("Path=./%s\nType=%s\n" % (n, ty))
+            it["dir_type"] = ty
     if names_blocks:
         t.file("d/.names", "\n".join(names_blocks).encode("utf-8", "surrogateescape"))
     if rng.random() < 0.5:
@@ -182,9 +187,9 @@ def run_case(chk: Check, sc: Scratch, idx: int) -> None:
                 chk.witness("C15/item-info-unparsable", {"item": nm, "reply": r.data[:300], "reason": v.reason})
                 return
             one = v.parsed["items"][0]
-            if "dir_abstract" in items[nm]:
-                # the directory shows the link file's abstract, the item itself its own: compare everything else
-                strip = lambda bl: [b for b in bl if b[0] != "ABSTRACT"]
+            if "dir_abstract" in items[nm] or "dir_type" in items[nm]:
+                # the directory shows the link file's abstract / item type, the item itself its own: compare everything else
+                strip = lambda bl: [b for b in bl if b[0] not in (("ABSTRACT",) if "dir_abstract" in items[nm] else ("INFO",))]
                 same = validate.normalize_ts(repr(strip(one)).encode()) == validate.normalize_ts(repr(strip(blocks)).encode())
             else:
                 same = validate.normalize_ts(repr(one).encode()) == validate.normalize_ts(repr(blocks).encode())
